@@ -2,6 +2,7 @@ package builder
 
 import (
 	"fmt"
+	"math/big"
 
 	"github.com/dave/jennifer/jen"
 	"github.com/jmattheis/goverter/config"
@@ -68,7 +69,7 @@ func (*Enum) Build(gen Generator, ctx *MethodContext, sourceID *xtype.JenID, sou
 		}
 
 		sourceValue := sourceEnum.Members[sourceName]
-		if previous, ok := sourceTargetMapping[sourceValue]; ok {
+		if previous, ok := sourceTargetMapping[comparableEnumValue(sourceValue)]; ok {
 			if enumTargetMismatches(previous, targetEnum, targetName) {
 				return nil, nil, enumTargetMismatchError(targetEnum, sourceName, targetName, previous, sourceValue).Lift(&Path{
 					SourceType: fmtEnumValue(sourceEnum, sourceName),
@@ -83,7 +84,7 @@ func (*Enum) Build(gen Generator, ctx *MethodContext, sourceID *xtype.JenID, sou
 					fmtEnumValue(sourceEnum, previous.Source), fmtEnumValue(targetEnum, previous.Target))))
 			}
 		} else {
-			sourceTargetMapping[sourceValue] = enumMapping{Source: sourceName, Target: targetName}
+			sourceTargetMapping[comparableEnumValue(sourceValue)] = enumMapping{Source: sourceName, Target: targetName}
 			cases = append(cases, jen.Case(sourceQual).Add(body))
 		}
 	}
@@ -171,7 +172,7 @@ func executeTransformers(transformers []config.ConfiguredTransformer, source, ta
 
 func enumTargetMismatches(previous enumMapping, targetEnum *xtype.Enum, targetName string) bool {
 	if !config.IsEnumAction(targetName) && !config.IsEnumAction(previous.Target) {
-		return targetEnum.Members[previous.Target] != targetEnum.Members[targetName]
+		return comparableEnumValue(targetEnum.Members[previous.Target]) != comparableEnumValue(targetEnum.Members[targetName])
 	}
 	return targetName != previous.Target
 }
@@ -197,6 +198,22 @@ func fmtEnumValue(targetEnum *xtype.Enum, targetName string) string {
 		return fmt.Sprintf("%s(action)", targetName)
 	}
 	return fmt.Sprintf("%s(%v)", targetName, targetEnum.Members[targetName])
+}
+
+// comparableEnumValue makes constant values comparable with ==: large integers and
+// floats are represented by pointers (*big.Int, *big.Rat, *big.Float), which would
+// compare by identity.
+func comparableEnumValue(value interface{}) interface{} {
+	switch v := value.(type) {
+	case *big.Int:
+		return "big.Int:" + v.String()
+	case *big.Rat:
+		return "big.Rat:" + v.String()
+	case *big.Float:
+		return "big.Float:" + v.Text('g', -1)
+	default:
+		return value
+	}
 }
 
 type enumMapping struct {
